@@ -278,6 +278,41 @@ def _rule_r28(text, log):
     return text
 
 
+def _rule_r29(text, log):
+    """numeric casts between usize and f64 (Verus gives exec casts of floats no meaning):
+    `(E).ceil() as usize` -> `ceil_to_usize(E)`;  `IDENT as f64` (a plain local, not a field or an element) ->
+    `usize_to_f64(IDENT)`.  The shims live in prelude fl: ceil_to_usize returns an uninterpreted function of its argument,
+    usize_to_f64(n) is finite with real value n (exact below 2^53; M2).  A non-usize IDENT is a type error in the
+    generated file (undecided, never an alarm)."""
+    n = 0
+    while True:
+        m = rs.mask(text)
+        mm = re.search(r'\)\s*\.ceil\(\)\s+as\s+usize\b', m)
+        if not mm:
+            break
+        close = mm.start()
+        # matching open parenthesis
+        d = 0
+        k = close
+        while k >= 0:
+            if m[k] == ')':
+                d += 1
+            elif m[k] == '(':
+                d -= 1
+                if d == 0:
+                    break
+            k -= 1
+        if k < 0:
+            raise Unsupported('R29: unbalanced parentheses before .ceil()')
+        text = text[:k] + 'ceil_to_usize(' + text[k + 1:close] + ')' + text[mm.end():]
+        n += 1
+    text, c2 = re.subn(r'(?<![\w.\]\)])([a-z_][a-z0-9_]*)\s+as\s+f64\b', r'usize_to_f64(\1)', text)
+    n += c2
+    if n:
+        log.append(('R29', n))
+    return text
+
+
 def _rule_r25(text, log, types):
     """rule DEREF:T1,T2: a variable declared `name: &T` (parameter or annotated let) that is a direct operand of a
     binary `* + -` is dereferenced: `name * x` -> `(*name) * x`.  For the Copy shim types named in the rule the
@@ -1034,6 +1069,8 @@ def apply_rewrites(text, log, rules, keep_eq=False):
         text = _rule_r26(text, log)
     if 'R28' in rules:
         text = _rule_r28(text, log)
+    if 'R29' in rules:
+        text = _rule_r29(text, log)
     if 'R20' in rules:
         text = _rule_r20(text, log)
     if 'R23' in rules:
